@@ -973,10 +973,11 @@ func (e *env) commit(l1, l2 completion, script string) (opName string, out strin
 	}
 	if err != nil && attempts > 0 {
 		// the error comes from the commit point
-		if classify(err) == "undetermined" {
-			return "commit", "err commit undetermined"
-		}
-		if lastLost {
+		if undet := classify(err) == "undetermined"; undet || lastLost {
+			label := "err commit lost"
+			if undet {
+				label = "err commit undetermined"
+			}
 			// the undetermined flag is set: execute() must not clean up; give a wrongly started cleanup a moment to show
 			l := logOf(e.txn.StartTS())
 			select {
@@ -985,10 +986,10 @@ func (e *env) commit(l1, l2 completion, script string) (opName string, out strin
 				if strings.HasPrefix(r, "ok ") {
 					r = r[3:]
 				}
-				return "commit", "err commit lost cleanup " + r
+				return "commit", label + " cleanup " + r
 			case <-time.After(100 * time.Millisecond):
 			}
-			return "commit", "err commit lost"
+			return "commit", label
 		}
 		kind := "err commit keyerr"
 		if ps, pe, _ := e.txn.VerifPipelinedRange(); len(ps) != 0 && len(pe) != 0 {
